@@ -361,6 +361,32 @@ def search(ctx, rng, budget):
             temp = float(rng.choice([200, 50, 1000]))
             px = [(int(a), int(b)) for a, b in rng.integers(0, ns, size=(6, 2))] + [(ns // 2, ns // 2)]
             run('sample_image', (nm, ns, sigma, temp, tol, px), gen_key, ('sample', nm, tol, sigma is None))
+        # histories on one SampleImage object: reads and transform(tol) in any order
+        nm = names[it % 5]
+        ns = int(rng.choice([21, 41, 61]))
+        tols = [4.8e-3, 3e-2, 1e-3, 1e-4, 1e-5, float(10 ** rng.uniform(-5, -1.5))]
+        kind = it % 4
+        m = int(rng.integers(2, 5))
+        seq = [float(t) for t in rng.choice(tols, size=m)]
+        if kind == 0:
+            seq = sorted(seq, reverse=True)          # refining
+        elif kind == 1:
+            seq = sorted(seq)                        # coarsening
+        elif kind == 2:
+            seq = seq + [seq[0]]                     # a repeated tolerance
+        ops = []
+        if rng.random() < 0.5:
+            ops.append(('read',))
+        for t in seq:
+            ops.append(('transform', t))
+            if rng.random() < 0.4:
+                ops.append(('read',))
+            if rng.random() < 0.2:
+                ops.append(('func',))
+        px = [(int(a), int(b)) for a, b in rng.integers(0, ns, size=(4, 2))] + [(ns // 2, ns // 2)]
+        run('sample_history', (nm, ns, None, 200.0, ops, px),
+            lambda name, args, d: 'C11:sample_history:%s' % re.sub(r'step \d+|[0-9.eE+-]{3,}|\[.*?\]|\(.*?\)', '', d)[:50].strip(),
+            ('hist', nm, kind, ops[0][0]))
     return hits, n_eval, len(distinct)
 
 
